@@ -50,6 +50,8 @@ THEOREMS = [
     "Nix.C18.C18_shape_ops",
     "Nix.C18.C18_content_no_name_taken",
     "Nix.C18.C18_fails_only_on_taken_name",
+    "Nix.C18.C18_no_extra_lost",
+    "Nix.C18.C18_failure_is_interruption",
     "Nix.C18.C18_values_never_lost",
     "Nix.C18.C18_failed_stays_old",
     "Nix.C18.C18_inside_never_rescheduled",
@@ -82,8 +84,12 @@ MANIFEST = {
                   "upgrade - is still old; re-running after any prefix of the steps, and after any history of "
                   "interruptions, gives the same file and outcome as an uninterrupted run up to the invocation that "
                   "made fresh ids/timestamps; the result has nothing left to collect, a second upgrade and a stale task "
-                  "list are the identity, the file opens for writing; for every file, every step list and failing "
-                  "steps included, every property keeps dtype, values, unit and definition; when no dataset sits at a "
+                  "list are the identity, the file opens for writing; for every file (no hypothesis on name clashes), "
+                  "every step list and failing steps included, every property keeps dtype, values, unit and "
+                  "definition and no per-value extra is lost (a compound property is afterwards untouched or "
+                  "converted with every extra retrievable by a reader who knows the original names; "
+                  "C18_no_extra_lost, true since the repair a9c126b); a failed upgrade is an interruption between "
+                  "two steps and every further attempt ends the same way; when no dataset sits at a "
                   "`<name>.<extra>` name of a compound property (NoNameTaken; the five suffixes are proved to give "
                   "pairwise distinct names) no step can fail - that is the only way an upgrade fails - and every per-value extra of every property is retrievable, plain "
                   "properties, arrays and dimension readings (alias range dimensions: ticks, unit, label) are "
@@ -93,8 +99,9 @@ MANIFEST = {
                   "and nixio/dimensions.py on every run and proved equal to the model (C18_shape_*); the rest of the "
                   "model is tied to the code by differential runs on h5py-crafted old files with every interruption "
                   "point.",
-    "level_note": "Partial: the full content statement is false of the code (C18_content_counterexample, open known "
-                  "finding C18-extra-name-collision): C18_content_partial / C18_content_no_name_taken carry the decidable "
+    "level_note": "Partial: the full content statement ('every old file is upgraded') is false of the code "
+                  "(C18_content_counterexample, open known finding C18-extra-name-collision: such a file is refused, "
+                  "nothing is lost): C18_content_partial / C18_content_no_name_taken carry the decidable "
                   "hypothesis Clean / NoNameTaken (no `<name>.<extra>` name already taken); without it C18_values_never_lost still holds. Interruption "
                   "inside one conversion is outside the property's quantifier; it is modelled (cut at the c-th "
                   "create_property call, exercised by the correspondence) and proved NOT recoverable "
